@@ -5,6 +5,7 @@ import Nuts.Model.Tx
 import NutsProofs.Lemmas.Assoc
 import NutsProofs.Props.C04
 import NutsProofs.Lemmas.BPTreeRefine
+import NutsProofs.Lemmas.KVRefine
 namespace NutsProofs.C01
 open Nuts Nuts.Model Nuts.Model.DB NutsProofs
 
@@ -191,5 +192,105 @@ theorem C01_witness_tree_splits :
     ((((List.range 40).map fun i => ([i.toUInt8], i)).foldl
         (fun t p => Nuts.Model.BPTree.Tree.insert t p.1 p.2) (none : Nuts.Model.BPTree.Tree Nat)).map treeDepth) = some 3 := by
   decide +kernel
+
+/-! ### reads refine the ordered map, for every history
+
+`KVRefine.absKV` abstracts an index to the spec's map (tombstones dropped; value, timestamp, TTL kept). It
+commutes with applying a record (`absKV_kvPut`: a put is `Spec.kvPut`, anything else `Spec.kvDel` —
+`specApply_put` / `specApply_del`), so along a history the abstraction of the index is the spec's map after
+the same puts and deletes; and `Get`, `GetAll`, `RangeScan` of the index under `dead` are the spec's reads
+under `live` (`isExpired_eq_not_live` ties the regenerated `IsExpired` kernel, uint64 arithmetic included, to
+the spec's `now < timestamp + ttl`). -/
+
+open NutsProofs.Reopen NutsProofs.KVRefine in
+/-- every transaction of the history writes API records: flag Set or Delete, expiry time within 64 bits -/
+def OpsRecOk (ops : List Op) : Prop := ∀ t, Op.commit t ∈ ops → ∀ r ∈ t, RecOk r
+
+open NutsProofs.Reopen NutsProofs.KVRefine in
+theorem logOf_recOk (ops : List Op) (h : OpsRecOk ops) : ∀ r ∈ logOf ops, RecOk r := by
+  induction ops with
+  | nil => intro r hr; cases hr
+  | cons op rest ih =>
+    have hrest : OpsRecOk rest := fun t ht => h t (List.mem_cons_of_mem _ ht)
+    cases op with
+    | commit t =>
+      intro r hr
+      simp only [logOf, List.mem_append] at hr
+      rcases hr with hr | hr
+      · -- a marked record is a record of the transaction with the status byte set
+        have ht := h t (by simp)
+        clear ih hrest h
+        induction t with
+        | nil => cases hr
+        | cons q qs ihq =>
+          simp only [marked, List.mem_cons] at hr
+          rcases hr with rfl | hr
+          · have := ht q (by simp)
+            unfold markLast; split <;> exact this
+          · exact ihq hr (fun x hx => ht x (by simp [hx]))
+      · exact ih hrest r hr
+    | reopen o => intro r hr; exact ih hrest r (by simpa [logOf] using hr)
+
+open NutsProofs.Reopen NutsProofs.KVRefine in
+/-- **C01 (key+value mode, every history).** Start from the empty database; commit any sequence of
+key/value write transactions (any number of Put / PutWithTimestamp / Delete records each, over any buckets,
+any key and value bytes, any TTL and timestamp with `timestamp + ttl < 2^64`, any segment size, so any
+number of file rotations), with reopens anywhere in between. Let `spec` be the ordered map of the
+specification after the same puts and deletes. Then at every clock value below `2^64`, for every bucket:
+`Get(k)` returns the value `spec` holds live for `k` and fails when there is none (absent, deleted or
+expired — never a stale or foreign value); `GetAll` returns exactly the live pairs in ascending key order
+(an error when there are none); `RangeScan(start, end)` exactly the live pairs with `start ≤ key ≤ end`
+in ascending order (an error when `start > end` or there are none). -/
+theorem C01_reads_refine_ordered_map (opt0 : Opts) (ops : List Op) (hok : OpsOk (openDB opt0 []).1 ops)
+    (hrec : OpsRecOk ops) (hm : (ops.foldl stepOp (openDB opt0 []).1).opt.mode = 0)
+    (now : Nat) (hn : now < 2 ^ 64) (b : Bytes) :
+    let s := ops.foldl stepOp (openDB opt0 []).1
+    let spec : Nuts.Spec.DB.SpecDB := { kv := specOfOps ops }
+    (∀ k, (DB.get s b k now).map (Option.map (·.value)) =
+        match Nuts.Spec.DB.kvGet spec b k now with | some v => .ok (some v) | none => .err) ∧
+    ((getAll s b now).map pairsOf =
+        if Nuts.Spec.DB.liveOf spec b now = [] then .err else .ok (Nuts.Spec.DB.liveOf spec b now)) ∧
+    (∀ st en, (rangeScan s b st en now).map pairsOf =
+        if bcmp st en == .gt then .err
+        else if ((Nuts.Spec.DB.liveOf spec b now).filter fun x => ble st x.1 && ble x.1 en) = [] then .err
+        else .ok ((Nuts.Spec.DB.liveOf spec b now).filter fun x => ble st x.1 && ble x.1 en)) := by
+  intro s spec
+  have hinv : LogInv s := logInv_ops ops _ (logInv_init opt0) hok
+  have hlog : (allRecs s.files).map (·.1) = logOf ops := by
+    have h0 : (allRecs (openDB opt0 []).1.files).map (·.1) = [] := by simp [openDB, fileEnsure, allRecs]
+    have := log_of_ops ops _ (logInv_init opt0) hok
+    rw [h0, List.nil_append] at this
+    exact this
+  have hL : ∀ x ∈ allRecs s.files, RecOk x.1 := by
+    intro x hx
+    apply logOf_recOk ops hrec
+    rw [← hlog]; exact List.mem_map.mpr ⟨x, hx, rfl⟩
+  have hspec : specOfLog ((allRecs s.files).map (·.1)) = specOfOps ops := by
+    rw [hlog]; exact specOfLog_logOf ops []
+  have := reads_refine s hinv hm hL now hn b
+  simp only [hspec] at this
+  exact this
+
+/-- a one-record transaction for the witness below: `Put(bucket a, key k, 16 bytes)` / `Delete`, id `id` -/
+def wPut (id k : Nat) : List Rec := [{ (mkRec [97] [k.toUInt8] (List.replicate 16 120) flagSet dsKV) with txid := id }]
+def wDel (id k : Nat) : List Rec := [{ (mkRec [97] [k.toUInt8] [] flagDelete dsKV) with txid := id }]
+
+open NutsProofs.Reopen NutsProofs.KVRefine in
+/-- the hypotheses of `C01_reads_refine_ordered_map` are met by a history with rotations (60-byte records,
+100-byte segments), an overwrite, a delete and a reopen — and on it `GetAll` shows the one live pair -/
+theorem C01_witness_history :
+    let ops := [Op.commit (wPut 1 1), .commit (wPut 2 2), .reopen { seg := 100 }, .commit (wPut 3 1), .commit (wDel 4 2)]
+    OpsOk (openDB { seg := 100 } []).1 ops ∧ OpsRecOk ops ∧ (ops.foldl stepOp (openDB { seg := 100 } []).1).opt.mode = 0 ∧
+    (getAll (ops.foldl stepOp (openDB { seg := 100 } []).1) [97] 5).map pairsOf = .ok [([1], List.replicate 16 120)] := by
+  refine ⟨⟨⟨by simp [wPut], 1, ?_⟩, ⟨by simp [wPut], 2, ?_⟩, ⟨by simp [wPut], 3, ?_⟩, ⟨by simp [wDel], 4, ?_⟩, trivial⟩, ?_, by decide +kernel, by decide +kernel⟩
+  · intro r hr; simp only [wPut, List.mem_singleton] at hr; subst hr; decide +kernel
+  · intro r hr; simp only [wPut, List.mem_singleton] at hr; subst hr; decide +kernel
+  · intro r hr; simp only [wPut, List.mem_singleton] at hr; subst hr; decide +kernel
+  · intro r hr; simp only [wDel, List.mem_singleton] at hr; subst hr; decide +kernel
+  · intro t ht r hr
+    simp only [List.mem_cons, List.mem_nil_iff, or_false, Op.commit.injEq, reduceCtorEq, false_or] at ht
+    rcases ht with rfl | rfl | rfl | rfl <;>
+      (first | (simp only [wPut, List.mem_singleton] at hr; subst hr; refine ⟨Or.inl rfl, by decide⟩)
+             | (simp only [wDel, List.mem_singleton] at hr; subst hr; refine ⟨Or.inr rfl, by decide⟩))
 
 end NutsProofs.C01
